@@ -579,6 +579,8 @@ def run(rep, sub=False):
         # the stage set of the push-constant range is part of this property's statement; its wiring is decided by C13's rules
         from common import include
         include(rep, 'c13', ('C13.stages', 'C13.wiring', 'C13.fallback', 'C13.selection', 'C13.iff'), 'push-constant-stages')
+        # the lookup key `binding.name` is the key of the stage map only if the binding record carries the variable's own name (C11.R2 decides that)
+        include(rep, 'c11', ('C11.R2.element-fields',), 'binding-record-name')
     # the section reaches the assembled output unconditionally (shared rule, lib/sections.py)
     from sections import check_wiring
     check_wiring(rep, 'C03.section-wiring', ['pub mod bind_groups', 'PUSH_CONSTANT_STAGES'], 'visibility-sections')
